@@ -36,12 +36,8 @@ def getCfg (cwd : Path) (j : Json) : Except String Cfg := do
     match a.toList with
     | [n, archs] => pure ((← n.getStr?), (← getStrs archs))
     | _ => throw "platform entry")
-  let repoKind ← j.getObjValAs? String "swiftRepo"
-  let swiftRepo ← (match repoKind with
-    | "local" => do pure (SwiftRepo.localDir (← j.getObjVal? "swiftLocal" >>= getP cwd))
-    | "git" => pure SwiftRepo.gitPath
-    | "url" => pure SwiftRepo.url
-    | k => throw s!"swiftRepo {k}")
+  -- the repository address as the configuration spells it (the sandbox directory being the root): the model classifies it
+  let swiftRepo := classifyRepo cwd (← j.getObjValAs? String "repository")
   pure {
     key := ← j.getObjValAs? String "key"
     target := ← j.getObjValAs? String "target"
@@ -117,7 +113,12 @@ def runOp (req : Json) : Except String Json := do
                                   dirs := w1.dirs.filter (fun f => !remove.any (fun d => under d f)) }
       pure (let (r, w) := run orc (publishSteps cfg) w2; (r, w, r0))
     | p => throw s!"phase {p}")
+  -- where a Swift package publish into a local directory writes (`null`: through git / another target)
+  let dest : Json := match cfg.key, cfg.swiftRepo with
+    | "swiftpackage", .localDir d => strsJ (resolve cwd (d.join [cfg.target]))
+    | _, _ => Json.null
   pure (Json.mkObj [("res", resJ r), ("code", codeJ r), ("prepare", resJ pre), ("cwd", strsJ w.cwd),
+    ("remote", cfg.key != "swiftpackage" || cfg.swiftRepo.isRemote), ("dest", dest),
     ("files", pathsJ (sortPaths w.files)), ("calls", Json.arr (w.calls.map callJ).toArray),
     ("clean", clean w.calls)])
 
@@ -142,7 +143,12 @@ def specOp (req : Json) : Except String Json := do
     outBefore := ← o.getObjVal? "outBefore" >>= getPaths
     outAfter := ← o.getObjVal? "outAfter" >>= getPaths
     ranIn := ← o.getObjVal? "ranIn" >>= getPaths
-    workRoots := ← pathsOr o "workRoots" }
+    workRoots := ← pathsOr o "workRoots"
+    exits := (match o.getObjValAs? (List Nat) "exits" with | .ok l => l | .error _ => [])
+    handledAt := (match o.getObjValAs? (List Bool) "handledAt" with | .ok l => l | .error _ => [])
+    cmdlines := (match o.getObjVal? "cmdlines" with | .ok v => (match getStrs v with | .ok l => l | .error _ => []) | .error _ => [])
+    newPaths := ← pathsOr o "newPaths"
+    allowed := ← pathsOr o "allowed" }
   -- a set of faults: `faults` = the failing points (ascending) as read off the stub log; the first unhandled one counts
   let faults : Option (List FaultPt) ← (match req.getObjVal? "faults" with
     | .ok (Json.arr a) => do
@@ -151,16 +157,26 @@ def specOp (req : Json) : Except String Json := do
                 maxLogged := ← j.getObjValAs? Nat "maxLogged", phase := ← j.getObjValAs? String "phase" } : FaultPt))
       pure (some l)
     | _ => pure none)
-  let failed := match faults with
+  let failed := (match faults with
     | some l => specSet key phase l obs
-    | none => spec key phase fault maxLogged obs
+    | none => spec key phase fault maxLogged obs) ++ specObs obs
   let eff : Json := match faults with
     | some l => (match effectiveFault l with | some f => Json.mkObj [("k", f.k), ("handled", f.handled), ("phase", f.phase)] | none => Json.null)
     | none => Json.null
   pure (Json.mkObj [("holds", failed.isEmpty), ("failed", strsJ failed), ("effective", eff)])
 
+/-- `c20.classify`: what `publish` makes of a repository address -/
+def classifyOp (req : Json) : Except String Json := do
+  let cwd ← req.getObjVal? "cwd" >>= getStrs
+  let addr ← req.getObjValAs? String "address"
+  pure (match classifyRepo cwd addr with
+    | .url => Json.mkObj [("kind", "url")]
+    | .gitPath => Json.mkObj [("kind", "git")]
+    | .localDir d => Json.mkObj [("kind", "local"), ("dir", strsJ (resolve cwd d))])
+
 def handle (op : String) (req : Json) : Except String Json :=
   match op with
+  | "c20.classify" => classifyOp req
   | "c20.run" => runOp req
   | "c20.spec" => specOp req
   | _ => throw s!"unknown op {op}"
